@@ -93,4 +93,5 @@ func init() {
 	register(propC15{})
 	register(propC14{})
 	register(propC12{})
+	register(propC09{})
 }
